@@ -17,7 +17,8 @@ CONSTANTS
   MaxStops = 1
   MaxExpire = 1
   IgnoredStarts = TRUE
-  LateRace = FALSE
+  RaceFinder = FALSE
+  RaceBuffer = FALSE
 VIEW view
 ACTION_CONSTRAINT GenLog
 CHECK_DEADLOCK FALSE
